@@ -16,9 +16,6 @@ Proof. vm_compute. reflexivity. Qed.
 Lemma wallet_cfg_ok : cfg_okb wallet_cfg = true.
 Proof. vm_compute. reflexivity. Qed.
 
-Lemma upgrade_scripts_atomic_true : upgrade_scripts_atomic = true.
-Proof. reflexivity. Qed.
-
 Lemma no_with_block_users : with_block_users = [].
 Proof. reflexivity. Qed.
 
